@@ -485,6 +485,51 @@ func c11Run(t *engine.T, shard string) {
 				return "empty", nil
 			})
 		}
+		// one spelling used as a member name in one path and as a variable (index, argument) in another path of the same
+		// template, in either order; calls with two arguments of which a later one is itself a call with an argument,
+		// evaluated several times in one render
+		same := []struct{ src, want string }{
+			{`<%= rows[1].Idx %>|<%= rows[0].Cols[Idx].Name %>`, "1|rows[0].Cols[3]"}, {`<%= rows[0].Cols[Idx].Name %>|<%= rows[1].Idx %>`, "rows[0].Cols[3]|1"},
+			{`<%= rows[0].Greet(Name) %>|<%= rows[1].Name %>`, "rows[0] greets VAR|rows[1]"}, {`<%= rows[1].Name %>|<%= rows[0].Greet(Name) %>`, "rows[1]|rows[0] greets VAR"},
+			{`<%= rows[1].Idx %><% let f = fn(Idx) { return rows[0].Cols[Idx].Name } %><%= f(2) %>|<%= rows[0].Cols[Idx].Name %>`, "1rows[0].Cols[2]|rows[0].Cols[3]"},
+			{`<%= for (Idx) in [0, 1] { %><%= rows[Idx].Idx %>:<%= rows[1].Cols[Idx].Name %>,<% } %>`, "0:rows[1].Cols[0],1:rows[1].Cols[1],"},
+			{`<%= hold.Row.Name %>|<%= rows[0].Greet(Row) %>|<%= hold.Row.Cols[Idx].Name %>`, "hold|rows[0] greets ROWVAR|hold.Cols[3]"},
+			{`<%= rows[0].Cell(0, rows[0].Last(2)).Name %>|<%= rows[0].Cell(0, rows[0].Last(2)).Name %>`, "rows[0].Cols[2]|rows[0].Cols[2]"},
+			{`<%= rows[0].Greet("x") %>|<%= rows[0].Cell(1, rows[0].Last(2)).Name %>|<%= rows[1].Cell(0, rows[0].Last(1)).Name %>|<%= rows[0].Cell(1, rows[0].Last(2)).Name %>`, "rows[0] greets x|rows[0].Cols[3]|rows[1].Cols[1]|rows[0].Cols[3]"},
+			{`<%= for (r) in rows { %><%= prow.Cell(r.Idx, rows[0].Last(2)).Name %>,<% } %><%= for (r) in rows { %><%= prow.Cell(r.Idx, rows[0].Last(1)).Name %>,<% } %>`, "prow.Cols[2],prow.Cols[3],prow.Cols[1],prow.Cols[2],"},
+			{`<% let a = rows[0].Cell(0, rows[1].Last(3)) %><% let b = rows[1].Cell(rows[0].Last(1), rows[1].Last(1)) %><%= a.Name %>|<%= b.Name %>|<%= rows[0].Cell(rows[0].Last(0), rows[1].Last(0)).Name %>`, "rows[0].Cols[3]|rows[1].Cols[2]|rows[0].Cols[0]"},
+		}
+		for _, c := range same {
+			c := c
+			t.Case("same-spelling "+q(c.src), true, func() (string, *engine.Fail) {
+				for round := 0; round < 2; round++ {
+					plush.CacheEnabled = false
+					ctx := plush.NewContext()
+					mk := func(name string, idx int) c11Row {
+						r := c11Row{Idx: idx, Name: name}
+						for i := 0; i < 9; i++ {
+							r.Cols = append(r.Cols, c11Col{fmt.Sprintf("%s.Cols[%d]", name, i)})
+						}
+						return r
+					}
+					ctx.Set("rows", []c11Row{mk("rows[0]", 0), mk("rows[1]", 1)})
+					pr := mk("prow", 9)
+					ctx.Set("prow", &pr)
+					ctx.Set("hold", struct{ Row c11Row }{mk("hold", 5)})
+					ctx.Set("Idx", 3)
+					ctx.Set("Name", "VAR")
+					ctx.Set("Row", "ROWVAR")
+					out, err := plush.Render(c.src, ctx)
+					if err != nil {
+						return "fails", nil
+					}
+					if out != c.want {
+						return "", engine.Failf("wrong-value", "Go navigation yields %q, template rendered %q (render %d)", c.want, out, round+1)
+					}
+				}
+				return "value", nil
+			})
+		}
 		// a map key of another kind than the map's keys cannot be looked up: never the entry of a converted key
 		for _, c := range []string{`<%= msv[97] %>`, `<%= msv[97.0] %>`, `<%= miv[1.9] %>`, `<%= miv[1.0] %>`, `<%= miv["1"] %>`, `<%= m8v[257] %>`, `<%= m8v[-255] %>`, `<%= mfv[1] %>`, `<%= msv[true] %>`, `<%= mbv[1] %>`,
 			`<% let k = 97 %><%= msv[k] %>`, `<%= msv[i97] %>`, `<%= miv[f19] %>`, `<%= msv[97].Name %>`, `<%= for (k, v) in [97] { %><%= msv[v] %><% } %>`} {
@@ -825,3 +870,15 @@ type EmbItem2 struct {
 }
 
 type EmbItem3 struct{ EmbBase }
+
+type c11Col struct{ Name string }
+
+type c11Row struct {
+	Idx  int
+	Name string
+	Cols []c11Col
+}
+
+func (r c11Row) Greet(n string) string { return r.Name + " greets " + n }
+func (r c11Row) Cell(i, j int) c11Col  { return r.Cols[i+j] }
+func (r c11Row) Last(k int) int        { return k }
